@@ -250,6 +250,12 @@ func judge(sc *Scenario, o *Outcome) (wire, residual []Item, tag []byte, probs [
 				add("C10/Serve/nil-without-peer-close", "Serve returned nil although the peer did not close its stream (cause: "+o.cause+")")
 			}
 		}
+		// a deadline error only when the deadline in force has passed: a deadline
+		// that a later SetCloseDeadline call has replaced (extended, shortened or
+		// cleared with the zero time) must not end Serve
+		if o.exitSeen && !o.passedAtExit && (r == "ETimeout" || r == "ECtxDeadline") {
+			add("C10/Serve/deadline-not-in-force", fmt.Sprintf("Serve returned %s although the close deadline in force had not passed when it left its loop (SetCloseDeadline calls in this scenario: %s)", r, deadlineCalls(sc)))
+		}
 		// the stream error that sendError transmits must be on the wire before the closing tag
 		if o.openAtErr {
 			found := false
@@ -279,6 +285,29 @@ func judge(sc *Scenario, o *Outcome) (wire, residual []Item, tag []byte, probs [
 		}
 	}
 	return
+}
+
+func deadlineCalls(sc *Scenario) string {
+	var l []string
+	for i, a := range sc.Actors {
+		if a.Kind != "setdeadline" {
+			continue
+		}
+		m := "later"
+		switch {
+		case a.Past:
+			m = "already passed"
+		case a.Zero:
+			m = "zero time"
+		}
+		for t, b := range sc.Actors {
+			if b.Kind == "timer" && timerFor(sc, t) == i {
+				m += ", passes during the scenario"
+			}
+		}
+		l = append(l, fmt.Sprintf("actor %d: %s", i, m))
+	}
+	return strings.Join(l, "; ")
 }
 
 func trunc(b []byte) string {
@@ -314,9 +343,15 @@ func coqKind(a Actor, idx int) string {
 	case "tokenwriter":
 		return "KTokenWriter " + n
 	case "setdeadline":
-		return "KSetDeadline " + hx.CoqBool(a.Past)
+		switch {
+		case a.Past:
+			return "KSetDeadline DPast"
+		case a.Zero:
+			return "KSetDeadline DZero"
+		}
+		return "KSetDeadline DFuture"
 	case "timer":
-		return "KTimer"
+		return "KTimer " + hx.CoqNat(a.For)
 	case "serve":
 		return "KServe"
 	case "probe":
